@@ -26,6 +26,7 @@ CLASSES = {
     "AFrozen": P.AFrozen, "PModel": P.PModel, "NT": P.NT, "TNT": P.TNT,
     "Outer.Cfg": P.Outer.Cfg, "Opaque": P.Opaque, "Vec": P.Vec, "APriv": P.APriv, "PAlias": P.PAlias,
     "Hidden": P.Hidden, "AHidden": P.AHidden, "PHidden": P.PHidden, "PExtra": P.PExtra, "IVar": P.IVar,
+    "SubPoint": P.SubPoint, "Point3": P.Point3,
     "int": int, "str": str, "list": list, "dict": dict, "set": set, "float": float,
     "bytes": bytes, "tuple": tuple, "bool": bool, "frozenset": frozenset,
     "defaultdict": P.defaultdict,
@@ -36,15 +37,16 @@ CALL_FIELDS = {
     "APoint": ["a", "b", "c"], "AFrozen": ["k", "v"], "PModel": ["n", "tags", "opt"],
     "NT": ["a", "b"], "TNT": ["p", "q"], "Outer.Cfg": ["n"], "APriv": ["x", "y"], "PAlias": ["n", "other"],
     "Hidden": ["a", "b"], "AHidden": ["a", "b"], "PHidden": ["a", "b"], "PExtra": ["a", "zz"],
+    "SubPoint": ["x", "y"], "Point3": ["x", "y", "z"],
 }
 REQUIRED = {
     "Point": ["x"], "FPoint": ["x"], "Box": [], "APoint": ["a"], "AFrozen": ["k"],
     "PModel": ["n"], "NT": ["a"], "TNT": ["p"], "Outer.Cfg": [], "APriv": ["x"], "PAlias": ["n"],
-    "Hidden": ["a"], "AHidden": ["a"], "PHidden": ["a"], "PExtra": ["a"],
+    "Hidden": ["a"], "AHidden": ["a"], "PHidden": ["a"], "PExtra": ["a"], "SubPoint": ["x"], "Point3": ["x"],
 }
 HASHABLE_CALLS = ["FPoint", "AFrozen", "NT", "TNT"]
 UNHASHABLE_CALLS = ["Point", "Box", "APoint", "PModel", "Outer.Cfg", "APriv", "PAlias", "Hidden", "AHidden", "PHidden",
-                    "PExtra"]
+                    "PExtra", "SubPoint", "Point3"]
 
 
 def build(d):
